@@ -410,3 +410,18 @@ Definition expected_seen (r : fres) : option seen :=
    magic value (full result range), so only ERR_MAGIC_OVERLAPPING (or ERR_NEVER for infallible ones) is sound *)
 Definition errkind_sound (k : errkind) : bool :=
   match k with ErrMagicOverlapping | ErrNever => true | _ => false end.
+
+(* ------------------------------------------------------------------ int.bit_length (CPyTagged_BitLength) *)
+Definition py_bit_length (a : Z) : Z := if a =? 0 then 0 else Z.log2 (Z.abs a) + 1.
+(* short: absval = |value|, bits = 64 - clz(absval) = log2(absval) + 1; boxed: _PyLong_NumBits; `int bits` returned as bits << 1 *)
+Definition tagged_bit_length (x : tagged) : tagged :=
+  match x with
+  | Short w =>
+      if w =? 0 then Short 0
+      else
+        let v := short_as_ssize w in
+        let absval := if v <? 0 then - v else v in
+        let bits := if absval =? 0 then 0 else Z.log2 absval + 1 in
+        Short (u64 (bits * 2))
+  | Long v => Short (u64 (py_bit_length v * 2))
+  end.
